@@ -12,7 +12,7 @@
 //	<outcome>/<state of if0>[/<state of if1>]/t<k>/h<n>/a<0|1>/g<0|1>
 //	t<k>    = hellos written between the start of the update and the moment everything had settled after it
 //	outcome = ok | panic:<kind> | blocked:<where>          (of the DeviceUpdate call)
-//	state   = k<devknown>u<operup>i<initialized>d<doneclosed>e<has handle>c<handle closed>n<#handles>
+//	state   = k<devknown>u<operup>i<initialized>d<doneclosed>e<has handle>c<handle closed>n<#handles>s<subscribed with the device server>
 //	h<n>    = hellos sent by all interfaces during the following 5 s of server time (one tick of every
 //	          periodic routine: lifetime decrement, LSP/PSNP/CSNP senders, hello senders)
 //	a<b>    = a neighbor's hellos injected on the first interface's current handle formed an Up adjacency
@@ -255,8 +255,11 @@ func runCase(id, input string) (res isisx.Result) {
 					fail("handle-closed-twice", evname+": ethernet handle closed more than once")
 				}
 			}
-			parts = append(parts, fmt.Sprintf("k%du%di%dd%de%dc%dn%d", b(st.DevKnown), b(st.OperUp), b(st.Initialized),
-				b(st.DoneClosed), b(st.HasEth), closed, n))
+			parts = append(parts, fmt.Sprintf("k%du%di%dd%de%dc%dn%ds%d", b(st.DevKnown), b(st.OperUp), b(st.Initialized),
+				b(st.DoneClosed), b(st.HasEth), closed, n, b(devs.Subscribed(x.name) == 1)))
+			if devs.Subscribed(x.name) != 1 {
+				fail("interface-not-subscribed", fmt.Sprintf("%s: interface %s has %d subscriptions with the device server: it will not hear the next link event", evname, x.name, devs.Subscribed(x.name)))
+			}
 		}
 
 		// hellos written while the update ran (a tick during the update)
